@@ -117,6 +117,8 @@ def build(case, spec, slab, alab):
     for k, r in spec["reward"].items():
         s, a, ns = map(int, k.split(","))
         rew[(s, a, ns)] = fl(r)
+        if case.get("int_rewards") and rew[(s, a, ns)] == int(rew[(s, a, ns)]):
+            rew[(s, a, ns)] = int(rew[(s, a, ns)])      # integer-typed rewards where floats are usual
     acts = []
     for s in range(spec["n"]):
         ids = list(spec["actions"][s])
@@ -124,6 +126,8 @@ def build(case, spec, slab, alab):
             ids = list(order[s])
         labs = [alab[a] for a in ids]
         acts.append(labs if rich else tuple(labs))
+    if rich and case.get("shared_actions") and all(x == acts[0] for x in acts):
+        acts = [acts[0]] * len(acts)              # ONE list object handed out for every state
     absorbing = list(spec["absorbing"])
     init_pairs = [(slab[s], fl(p)) for s, p in spec["init"]]
     init = mkdist(init_pairs)
@@ -151,7 +155,18 @@ def build(case, spec, slab, alab):
         else:
             kw["initial_state_dist"] = init
         mdp = cls(**kw)
-    return mdp, sid, aid
+
+    def snap():
+        """the caller's objects the learner gets to see (persistent across calls): must never be mutated"""
+        def dd(d):
+            if isinstance(d, dict):
+                return ("dict", tuple(dict.items(d)))
+            if isinstance(d, DeterministicDistribution):
+                return ("det", d.value)
+            return ("uni", tuple(d.support))
+        return repr((tuple(tuple(x) for x in acts), tuple((k, dd(v)) for k, v in trans.items()),
+                     tuple(rew.items()), dd(init), tuple(absorbing)))
+    return mdp, sid, aid, snap
 
 
 def num(case, x):
@@ -173,11 +188,12 @@ def one(case, pl):
         except BaseException as e:
             return {"raised": type(e).__name__}
     stages = case.get("stages") or [case["mdp"]]
-    n, nA = stages[0]["n"], stages[0]["nA"]
+    n, nA = max(sp["n"] for sp in stages), max(sp["nA"] for sp in stages)
     slab, alab = label_maps(case, n, nA)
     sid0 = {l: i for i, l in enumerate(slab)}
     aid0 = {l: i for i, l in enumerate(alab)}
     iq = case["initial_q"]
+    tbl = None
     if iq["kind"] == "const":
         initial_q = fl(iq["value"])
     elif iq["kind"] == "int":
@@ -187,31 +203,32 @@ def one(case, pl):
         initial_q = lambda s, a: tbl[sid0[s]][aid0[a]]
     params = dict(episodes=int(case["episodes"]), step_size=num(case, case["alpha"]), rand_choose=num(case, case["eps"]),
                   softmax_temp=num(case, case["temp"]), initial_q=initial_q, seed=case["seed"])
-    # ONE learner object for all stages: train_on(A), train_on(B), train_on(A) ... (same state/action labels);
-    # nothing learnt or cached on one problem may leak into the next result
+    # ONE learner object for all stages: train_on(A), train_on(B), train_on(A) ... (same labels, B possibly of a
+    # different size); nothing learnt or cached on one problem may leak into the next result
     learner = cls(event_listener_class=make_listener(td, kind), **params)
-    out = []
-    built = {}
-    for spec in stages:
+    out, kept, built = [], [], {}
+    for k_stage, spec in enumerate(stages):
         key = json.dumps(spec, sort_keys=True)
-        if key not in built:
-            built[key] = build(case, spec, slab, alab)
+        if key not in built or not case.get("reuse_mdp_object", True):
+            built[key] = build(case, spec, slab, alab)     # same problem constructed again in this process
             if case.get("pretouch"):
                 try:    # a base object whose cached views were already used
                     built[key][0].state_list, built[key][0].action_list, built[key][0].transition_matrix
                 except BaseException:
                     pass
-        mdp, sid, aid = built[key]
+        mdp, sid, aid, snap = built[key]
         _CTX["sid"], _CTX["aid"] = sid, aid
+        before = (snap(), repr(tbl))
         if case["seed"] is None:
             random.seed(case.get("global_seed", 0))
         res = learner.train_on(mdp)
         q = res.q_values
         keys = [k for k in dict.keys(q)]
         table = [[sid[s], [[aid[a], fj(v)] for a, v in dict.items(dict.__getitem__(q, s))]] for s in keys]
-        first = [{aid[a]: p for a, p in res.policy.action_dist(slab[s]).items()} for s in range(spec["n"])]
-        policy = [[[a, fj(p)] for a, p in d.items()] for d in first]
-        again = [{aid[a]: p for a, p in res.policy.action_dist(slab[s]).items()} for s in range(spec["n"])]
+        # the policy is asked about half of the states now and about the others only after ALL later stages ran
+        now = [s for s in range(spec["n"]) if (s + k_stage) % 2 == 0 or len(stages) == 1]
+        first = {s: {aid[a]: p for a, p in res.policy.action_dist(slab[s]).items()} for s in now}
+        again = {s: {aid[a]: p for a, p in res.policy.action_dist(slab[s]).items()} for s in now}
         requery_ok = again == first
         keys_after = [sid[k] for k in dict.keys(res.q_values)]
         # twin: a second learner object of the same class, msdm's default listener, same MDP object
@@ -228,12 +245,28 @@ def one(case, pl):
                 t += float(Fraction(*st["r"]))
             sums.append(t)
         twin_ok = (twin_table == mine) and (list(twin.event_listener_results.episode_rewards) == sums)
+        inputs_untouched = (snap(), repr(tbl)) == before
+        kept.append((res, spec, sid, aid, first, mine))
         out.append({"episodes": res.event_listener_results, "keys": [sid[k] for k in keys], "table": table,
-                    "policy": policy, "keys_after_policy": keys_after, "policy_requery_ok": bool(requery_ok),
-                    "twin_ok": bool(twin_ok),
+                    "keys_after_policy": keys_after, "policy_requery_ok": bool(requery_ok),
+                    "twin_ok": bool(twin_ok), "inputs_untouched": bool(inputs_untouched),
                     "twin_detail": None if twin_ok else {"twin_table": {str(s): {str(a): fj(v) for a, v in r.items()} for s, r in twin_table.items()},
                                                           "twin_episode_rewards": [fj(x) for x in twin.event_listener_results.episode_rewards]},
                     "actions": [[aid[a] for a in mdp.actions(slab[s])] for s in range(spec["n"])]})
+    # results of EARLIER calls, re-queried after the later ones: remaining states first (never asked before),
+    # then everything again; the returned tables must not have moved either
+    for o, (res, spec, sid, aid, first, mine) in zip(out, kept):
+        pol = dict(first)
+        for s in range(spec["n"]):
+            if s not in pol:
+                pol[s] = {aid[a]: p for a, p in res.policy.action_dist(slab[s]).items()}
+        final = {s: {aid[a]: p for a, p in res.policy.action_dist(slab[s]).items()} for s in range(spec["n"])}
+        q = res.q_values
+        later = {sid[s]: {aid[a]: v for a, v in dict.items(dict.__getitem__(q, s))} for s in dict.keys(q)}
+        o["policy"] = [[[a, fj(p)] for a, p in pol[s].items()] for s in range(spec["n"])]
+        o["policy_requery_ok"] = bool(o["policy_requery_ok"] and final == pol)
+        o["stale_results_ok"] = bool(later == mine)
+        o["keys_after_policy"] = [sid[k] for k in dict.keys(q)]
     return {"stages": out}
 
 
